@@ -105,6 +105,17 @@ add("C30", "raftsim", "exploration", "bounded-liveness property testing in the d
     "2-, 3- and 5-node clusters: after the (optional) faulty prefix all clocks advance together in 10 ms quanta (the server's loop period), every in-flight message is delivered exactly once in a generated order, appends are issued at the settled leader; within 12 000 quanta (120 s of virtual time, 40 term timeouts) there must be exactly one leader followed by all nodes with every node having committed exactly the leader's entries, all of them. Refutes liveness within the bound, cannot establish it. Three listed known findings (2-node candidate livelock; reconciliation that cannot repair a follower with a stale higher-term tail, as endless message exchange and as missing replication) are met and counted; the campaign continues behind them.",
     "Weakest oracle of the suite (bounded liveness). The bound is 40x the longest convergence observed on the unchanged tree, reported as max_quanta_needed. A follower keeping a stale uncommitted entry beyond the leader's log is not judged (the property speaks of entries appended at the leader).", "DESIGN 3/C30, appendix E")
 
+SRV = "model-based property testing against a real server process (proptest-generated request sequences over raw HTTP, reference permission / database / file-system models, state observed through the server's own endpoints and the file system)"
+add("C24", "vcheck", "exploration", SRV,
+    "Generated multi-user request sequences (5-40 requests; four users, one database of each kind; role grants/removals, exec/exec_mut with read and write batches, audit, backup, restore, clear, optimize, convert, copy, rename, delete, remove, user list, adding a database under another user's name, login, logout, change password, admin endpoints with user tokens; actors present valid, logged-out, garbage, missing or quoted tokens) against a freshly built agdb_server: a permission model written from the documented table predicts allowed / rejected; rejected means a 4xx answer and an unchanged observable server state, allowed means success and the modelled roles.",
+    "Real tokio server: request handling order inside the server is the OS's, the oracle does not depend on it (requests are sequential). Token expiry (minimum 60 s, real clock) is not exercised. A user removing their own role is not in the documented table and not decided. The server strips quotes from bearer tokens on purpose; a quoted valid token counts as valid.", "DESIGN 3/C24, appendix C")
+add("C25", "vcheck", "exploration", SRV,
+    "Generated sequences of 4-10 query batches (reads, writes, failing queries, result references pointing at earlier / later / missing results, mutating queries sent to exec) by the owner and a write-role user on memory, mapped and file databases of a real server: the reference database model is applied per batch; a batch with a failing query must be rejected and leave the dump read back through exec unchanged, an applied batch must match the model; after every batch the audit endpoint must list exactly the mutating queries of the applied batches, in order, with the submitting user.",
+    "Values restricted to those that survive JSON. Queries whose outcome the documentation leaves open are not decided (the batch must still be all-or-nothing).", "DESIGN 3/C25")
+add("C26", "vcheck", "exploration", SRV,
+    "Database names built from a grammar of path-like and special strings (separators raw / encoded / double encoded, dot segments, leading dots, reserved directory names, .bak/.log suffixes, blanks, control and non-ASCII characters) used with add, copy, rename, backup, restore, clear, convert, exec_mut, delete, remove on a fresh server per case, nested five directories below the scratch root; a manifest (path, size, hash) of the whole scratch root before and after every request decides: every changed path lies under data_dir/<owner>/, no file of another database changes, a rejected request changes nothing. Pass A meets the listed known findings (unvalidated names, keyed by the class of the name) and continues; pass B uses plain names only, where every failure is a violation.",
+    "The name classes (separator, dot-dot segment, leading dot, reserved name, suffix) are the trigger predicates of the known findings; a failure for a plain name is always reported.", "DESIGN 3/C26, appendix F")
+
 TITLES = {}
 for l in open("/verif/properties.jsonl"):
     pr = json.loads(l)
